@@ -27,6 +27,8 @@ pub struct GenCfg {
     pub allow_double_underscore: bool,
     pub value_hints: bool,
     pub allow_flag_subs: bool,
+    /// digits as short flags (`-8` then also looks like a negative number)
+    pub digit_shorts: bool,
     pub text: TextKind,
 }
 
@@ -58,6 +60,7 @@ impl GenCfg {
             allow_double_underscore: false,
             value_hints: false,
             allow_flag_subs: true,
+            digit_shorts: true,
             text: TextKind::Plain,
         }
     }
@@ -79,6 +82,7 @@ impl GenCfg {
             allow_double_underscore: false,
             value_hints: false,
             allow_flag_subs: true,
+            digit_shorts: true,
             text: TextKind::Layout,
         }
     }
@@ -100,6 +104,7 @@ impl GenCfg {
             allow_double_underscore: false,
             value_hints: true,
             allow_flag_subs: false,
+            digit_shorts: true,
             text: TextKind::Adversarial,
         }
     }
@@ -118,8 +123,8 @@ pub struct Names {
 }
 
 impl Names {
-    pub fn new(rng: &mut Rng, hostile: bool) -> Names {
-        let mut shorts: Vec<char> = SHORT_POOL.chars().collect();
+    pub fn new(rng: &mut Rng, hostile: bool, digits: bool) -> Names {
+        let mut shorts: Vec<char> = SHORT_POOL.chars().filter(|c| digits || !c.is_ascii_digit()).collect();
         if hostile {
             shorts.push('\u{e9}');
             shorts.push('?');
@@ -283,7 +288,7 @@ fn swarm(rng: &mut Rng) -> Swarm {
 
 pub fn gen_tree(rng: &mut Rng, cfg: &GenCfg) -> CmdSpec {
     let sw = swarm(rng);
-    let mut names = Names::new(rng, cfg.hostile_names);
+    let mut names = Names::new(rng, cfg.hostile_names, cfg.digit_shorts);
     let depth = rng.usize(cfg.max_depth + 1);
     let multicall = cfg.allow_multicall && rng.chance(1, 12);
     let mut root = gen_level(rng, cfg, &sw, &mut names, 0, depth, multicall, &[]);
